@@ -6,7 +6,7 @@ id=$1; shift
 ROOT=$(cd "$(dirname "$0")/.." && pwd)   # works from a snapshot of /verif (vp run) as well
 props=${@:-$(echo $id | cut -c1-3)}
 wt=/tmp/alt-repo-$(basename $ROOT)-$id
-git -C /repo worktree remove --force $wt >/dev/null 2>&1; rm -rf $wt
+git -C /repo worktree remove --force $wt >/dev/null 2>&1; rm -rf $wt $ROOT/bin-alt/$(basename $wt)
 git -C /repo worktree add --detach $wt HEAD >/dev/null 2>&1 || { echo "worktree failed"; exit 2; }
 git -C $wt apply $ROOT/seeded/$id/patch.diff || { echo "patch does not apply"; git -C /repo worktree remove --force $wt; exit 2; }
 cd $ROOT
@@ -17,4 +17,4 @@ for p in $props; do
   v=$(echo "$out" | grep -E '^VIOLATION' | head -3 | tr '\n' ';')
   echo "mutant=$id check=$p (alt) rc=$rc secs=$((end-start)) ${v:-no-violation}"
 done
-git -C /repo worktree remove --force $wt >/dev/null 2>&1; rm -rf $wt
+git -C /repo worktree remove --force $wt >/dev/null 2>&1; rm -rf $wt $ROOT/bin-alt/$(basename $wt)
